@@ -697,29 +697,26 @@ Section AlphaP.
     subst p'. eapply plain_value_inj; eauto.
   Qed.
 
-  Lemma default_alpha_instantiate big pid c i :
-    instantiate (default_alpha_tpl big) pid c i = (if big then pid else []) ++ [c; i].
-  Proof.
-    destruct big; cbn [default_alpha_tpl instantiate flat_map part_nums app]; reflexivity.
-  Qed.
-
-  Lemma default_alpha_has_index big : In PIndex (default_alpha_tpl big).
-  Proof. destruct big; cbn; auto. Qed.
-
-  (* default alpha generators (both id modes): a code in common means same generator, same draw *)
-  Lemma pipeline_alpha_pair a a' big big' pid pid' c c' i i' s :
+  (* big-id mode default alpha generators: a code in common means same generator, same draw *)
+  Lemma pipeline_alpha_pair_big a a' pid pid' c c' i i' s :
     al_alphabet a = al_alphabet a' -> al_randomize a = al_randomize a' ->
     NoDup (al_alphabet a) -> (2 <= length (al_alphabet a))%nat ->
-    alpha_value mask nbits bpc a (default_alpha_tpl big) pid c i = Ok s ->
-    alpha_value mask nbits bpc a' (default_alpha_tpl big') pid' c' i' = Ok s ->
+    alpha_value mask nbits bpc a (default_alpha_tpl true) pid c i = Ok s ->
+    alpha_value mask nbits bpc a' (default_alpha_tpl true) pid' c' i' = Ok s ->
     c = c' /\ i = i'.
   Proof.
     intros Habc Hr Hnd Hlen H H'.
-    pose proof (alpha_value_same_numbers _ _ _ _ _ _ _ _ _ _ _ Habc Hr Hnd Hlen
-                  (default_alpha_has_index big) (default_alpha_has_index big') H H') as He.
-    rewrite !default_alpha_instantiate in He. eapply app_tail2; eauto.
+    assert (Hi : In PIndex (default_alpha_tpl true)) by (cbn; auto).
+    pose proof (alpha_value_same_numbers _ _ _ _ _ _ _ _ _ _ _ Habc Hr Hnd Hlen Hi Hi H H') as He.
+    cbn [default_alpha_tpl instantiate flat_map part_nums app] in He.
+    eapply app_tail2; eauto.
   Qed.
 
+  (* the default alpha template of small-id mode does not contain the context *)
+  Lemma default_alpha_small_ignores_context a pid c c' i :
+    alpha_value mask nbits bpc a (default_alpha_tpl false) pid c i =
+    alpha_value mask nbits bpc a (default_alpha_tpl false) pid c' i.
+  Proof. reflexivity. Qed.
 End AlphaP.
 
 (* ================================================================ a whole process *)
@@ -825,26 +822,32 @@ Section AlphaProcessP.
     unfold agen_draws. rewrite map_map. reflexivity.
   Qed.
 
-  (* all codes of all default alpha generators of a process (one alphabet, one randomize flag, any
-     min_chars) are pairwise distinct *)
-  Lemma pipeline_alpha_NoDup abc rc gens codes :
+  Lemma key_in_gens (gens : list agen) g (i : Z) :
+    In (g, i) (flat_map (fun g => map (pair g) (Zseq alpha_start (ag_n g))) gens) -> In g gens.
+  Proof.
+    intros Hx. apply in_flat_map in Hx. destruct Hx as (g0 & Hg0 & Hin).
+    apply in_map_iff in Hin. destruct Hin as (? & Hp & _). injection Hp as -> _. exact Hg0.
+  Qed.
+
+  (* all codes of all BIG-ID-MODE default alpha generators of a process (one alphabet, one randomize
+     flag, any min_chars) are pairwise distinct *)
+  Lemma pipeline_alpha_NoDup_big abc rc gens codes :
     NoDup abc -> (2 <= length abc)%nat ->
+    (forall g, In g gens -> ag_big g = true) ->
     NoDup (map ag_ctx gens) -> aprocess_draws mask nbits bpc abc rc gens = map Ok codes ->
     NoDup codes.
   Proof.
-    intros Hnd Hlen Hctx He. rewrite aprocess_draws_keys in He.
+    intros Hnd Hlen Hbig Hctx He. rewrite aprocess_draws_keys in He.
     eapply NoDup_of_injective_keys; [| |exact He].
     - apply NoDup_flat_pairs; [eapply NoDup_map_inv; eauto|]. intros g. apply Zseq_NoDup.
     - intros [g i] [g' i'] v Hx Hy Hv Hv'. unfold akey_value in Hv, Hv'. cbn [fst snd] in Hv, Hv'.
+      pose proof (key_in_gens _ _ _ Hx) as Hg. pose proof (key_in_gens _ _ _ Hy) as Hg'.
+      rewrite (Hbig g Hg) in Hv. rewrite (Hbig g' Hg') in Hv'.
       assert (Hp : ag_ctx g = ag_ctx g' /\ i = i').
-      { eapply (pipeline_alpha_pair mask nbits bpc (mkAlpha abc (ag_min_chars g) rc)
-                                    (mkAlpha abc (ag_min_chars g') rc));
+      { eapply (pipeline_alpha_pair_big mask nbits bpc (mkAlpha abc (ag_min_chars g) rc)
+                                        (mkAlpha abc (ag_min_chars g') rc));
           [reflexivity|reflexivity|exact Hnd|exact Hlen|exact Hv|exact Hv']. }
       destruct Hp as [Hc ->].
       f_equal. apply (NoDup_map_In_inj ag_ctx gens); auto.
-      + apply in_flat_map in Hx. destruct Hx as (g0 & Hg0 & Hin).
-        apply in_map_iff in Hin. destruct Hin as (? & Hp & _). injection Hp as -> _. exact Hg0.
-      + apply in_flat_map in Hy. destruct Hy as (g0 & Hg0 & Hin).
-        apply in_map_iff in Hin. destruct Hin as (? & Hp & _). injection Hp as -> _. exact Hg0.
   Qed.
 End AlphaProcessP.
